@@ -2,7 +2,7 @@
 # Rebuild the Go conformance harness (vh) from /repo's current working tree with hooks enabled.
 # Everything is generated from files on disk; nothing is fetched.
 set -e
-VERIF=${VERIF:-/verif}
+VERIF=${VERIF:-$(cd "$(dirname "$0")/.." && pwd)}
 REPO=${REPO:-/repo}
 export GOFLAGS=-mod=mod GOPROXY=off GOSUMDB=off GOTOOLCHAIN=local CGO_ENABLED=${CGO_ENABLED:-1}
 mkdir -p "$VERIF/.build"
